@@ -370,11 +370,11 @@ func spec() corr.Spec {
 		Count: func(tier string) int {
 			switch tier {
 			case "quick":
-				return 1600
+				return 800
 			case "thorough":
-				return 24000
+				return 16000
 			}
-			return 40000
+			return 8000
 		},
 		Shards: func(tier string) int {
 			if tier == "quick" {
